@@ -176,6 +176,17 @@ def part_timer(facts, res, fields, fi):
     if "count" not in names:
         res.errors.append("update_timer8_0: local 'count' not found")
         return
+    carried = set()
+    for b_ in loops[header]:
+        bl_ = body["blocks"][b_]
+        for s_ in bl_["st"]:
+            if s_["k"] == "assign" and not s_["p"]["p"]:
+                carried.add(s_["p"]["l"])
+            if s_["k"] == "assign" and s_["r"]["k"] == "ref" and s_["r"].get("mut") and not any(pr["k"] == "deref" for pr in s_["r"]["p"]["p"]):
+                carried.add(s_["r"]["p"]["l"])
+        t_ = bl_["term"]
+        if t_["k"] == "call" and not t_["dest"]["p"]:
+            carried.add(t_["dest"]["l"])
     tt = facts.types[facts.type_by_path["modules::timer8::CounterClear"]]
     cnames = [v["n"] for v in tt["variants"]]
     off = {n: a - IO2_START for n, a in REG.items()}
@@ -199,6 +210,12 @@ def part_timer(facts, res, fields, fi):
                     snap["entry"] = (cur, t.fields[fi["state"]], st.pc, st.eff)
                     # generalise the remaining count; the tick analysed stands for every tick
                     st.mem[root] = Int(bv.seq_bv("remaining", 16))
+                    # any other integer local assigned (or mutably borrowed) in the loop is loop-carried: arbitrary value
+                    for l_ in sorted(carried):
+                        key_ = ("f", fr.fid, l_)
+                        cur_ = st.mem.get(key_)
+                        if key_ != root and isinstance(cur_, Int):
+                            st.mem[key_] = Int(bv.seq_bv("carried_%d" % l_, len(cur_.bits)))
                     st.eff = ()
                     return "continue"
                 st.add_eff(("count_after", cur.bits if isinstance(cur, Int) else None))
